@@ -23,6 +23,15 @@ Theorem C15_signal_power : forall a, signal_power a = sumq (map (fun v => v * v)
 Proof. exact signal_power_is_mean_of_squares. Qed.
 Print Assumptions C15_signal_power.
 
+(** ======== generated arithmetic = model (Gen/Kernels.v is regenerated from the source on every check) ======== *)
+From TW Require Import Model.MatchSpec Model.Process Gen.Kernels Proofs.KernelsLink.
+Theorem C15_generated_noise_scale : forall psqrt p10 a snr,
+  noise_gauss__sp (VV a) = VS (signal_power a) /\
+  noise_gauss__std_n_lin psqrt (noise_gauss__sp (VV a)) (VS snr) = VS (psqrt (noise_var a snr)) /\
+  noise_gauss__std_n_db psqrt p10 (noise_gauss__sp (VV a)) (VS snr) = VS (psqrt (noise_var a (p10 (snr / qz 10)))).
+Proof. exact gen_noise_scale. Qed.
+Print Assumptions C15_generated_noise_scale.
+
 Example C15_scale_uses_signal_power :
   signal_power [qz 1; qz (-1); qz 3] <> meanq [qz 1; qz (-1); qz 3] * meanq [qz 1; qz (-1); qz 3].
 Proof. exact scale_uses_signal_power. Qed.
